@@ -139,6 +139,8 @@ func (g *Gen) Make(kind string, kids, hidden []*Node) *Node {
 		n.N = []int{r.Intn(len(Sentinels))}
 	case "errno":
 		n.N = []int{r.Intn(len(Errnos))}
+	case "rterr":
+		n.N = []int{r.Intn(len(RuntimeErrors))}
 	case "tags", "tagsafe":
 		n.N = []int{r.Intn(100)}
 	case "http":
